@@ -114,7 +114,8 @@ ProbeDrain == /\ Ev.ev = "probedrain" /\ l' = l + 1
                     /\ (g.kind = "pop" /\ g.n <= g.init) => g.ok
               /\ g' = [g EXCEPT !.dirty = TRUE]
               /\ q' = SubSeq(q, Len(Ev.popped) + 1, Len(q))
-              /\ st' = Mark(st, q')
+              \* the observer's Pops are operations in flight for every call that is pending now: it was overlapped
+              /\ st' = Mark([t \in T |-> IF st[t].ph = "idle" THEN st[t] ELSE [st[t] EXCEPT !.ov = TRUE]], q')
               /\ UNCHANGED cap
 
 Next == \/ l <= Len(Trace) /\ (Reset \/ Inv \/ Ret \/ Probe \/ ProbeDrain)
